@@ -488,10 +488,15 @@ class Model:
             return self.ev(('byte', int(v)), p, {}, v.lvl)
         raise IllFormed('value used as parser: %r' % (v,))
 
-    def call(self, e, p, env, lvl):
+    def call(self, e, p, env, lvl, through=False):
         name = e[1]
-        if name in env:
-            raise IllFormed('call through a bound name')
+        if name in env and not through:
+            # a parameter bound to (a reference to) a parameterised rule, called with arguments: the
+            # arguments belong to this call site, the rule is the one the reference denotes
+            v = env[name]
+            if isinstance(v, Closure) and v.e[0] == 'ref' and v.e[1] not in v.env:
+                return self.call(('call', v.e[1], e[2]), p, env, lvl, through=True)
+            raise IllFormed('call through a bound name that is not a rule reference')
         if name.startswith('super.'):
             if lvl.parent is None:
                 raise IllFormed('super without parent')
